@@ -366,7 +366,7 @@ class MethodTr:
                 return self.tr.sigs[name][1]
             if k[0] == "opaque":
                 return self.schema.opaque_calls[k[1]][1]
-            if k[0] in ("timedelta", "int", "max", "min", "abs"):
+            if k[0] in ("timedelta", "int", "max", "min", "abs", "math.ceil", "math.floor"):
                 return "Int"
         return "?"
 
@@ -389,6 +389,9 @@ class MethodTr:
                 return ("opaque", f.id)
             if f.id in ("timedelta", "int", "max", "min", "abs"):
                 return (f.id,)
+        if (isinstance(f, ast.Attribute) and isinstance(f.value, ast.Name) and f.value.id == "math"
+                and f.attr in ("ceil", "floor")):
+            return ("math." + f.attr,)
         return ("?",)
 
     # -------------------------------------------------------------- expressions
@@ -481,6 +484,8 @@ class MethodTr:
                 return f"({a} - {b})"
             if isinstance(e.op, ast.Mult):
                 return f"({a} * {b})"
+            if isinstance(e.op, ast.Div) and self.schema.num == "Rat":
+                return f"({a} / {b})"
             if isinstance(e.op, ast.FloorDiv) and self.schema.num == "Int":
                 return f"(Int.fdiv {a} {b})"
             if isinstance(e.op, ast.Mod) and self.schema.num == "Int":
@@ -513,6 +518,9 @@ class MethodTr:
                 if len(e.args) != 2 or e.keywords:
                     self.fail(e, k[0] + " with other than two arguments")
                 return f"({k[0]} {self.val(e.args[0])} {self.val(e.args[1])})"
+            if k[0] in ("math.ceil", "math.floor") and self.schema.num == "Rat" and len(e.args) == 1:
+                fn = "Rat.ceil" if k[0] == "math.ceil" else "Rat.floor"
+                return f"((({fn} {self.val(e.args[0])}) : Int) : Rat)"
             if k[0] == "abs" and self.schema.num == "Int":
                 return f"(Int.natAbs {self.val(e.args[0])} : Int)"
             if k[0] in ("self", "super"):
@@ -541,7 +549,12 @@ class MethodTr:
             return f"(¬ {self.prop(e.operand)})"
         if isinstance(e, ast.Compare):
             if len(e.ops) != 1:
-                self.fail(e, "chained comparison")
+                # a < b < c  ==  (a < b) and (b < c)   (operands here are side-effect free)
+                parts, left = [], e.left
+                for op, right in zip(e.ops, e.comparators):
+                    parts.append(self.prop(ast.copy_location(ast.Compare(left=left, ops=[op], comparators=[right]), e)))
+                    left = right
+                return "(" + " ∧ ".join(parts) + ")"
             l, r, op = e.left, e.comparators[0], e.ops[0]
             if isinstance(l, ast.Tuple) and isinstance(r, ast.Tuple) and len(l.elts) == 2 and len(r.elts) == 2:
                 # lexicographic order on pairs of numbers
@@ -703,6 +716,9 @@ class MethodTr:
                 name, argtxt, pure = self.method_call(s.value, k)
                 return f"{self.ind(d)}let o := ({name} o{argtxt}).1\n{self.block(rest, d)}"
             f = s.value.func
+            if isinstance(f, ast.Name) and f.id in self.schema.ignored_calls:
+                self.tr.ignored.append(f"{self.owner}.{self.method}:{s.lineno}: {f.id}")
+                return self.block(rest, d)
             if isinstance(f, ast.Attribute) and f.attr in self.schema.effect_calls:
                 self.pure = False
                 lab = self.effect_label(s.value)
